@@ -95,7 +95,7 @@ func runE2EFault(sx, outp string) {
 					if kind == "socks" {
 						go socksServer(l, cnt, key)
 					} else {
-						go httpServer(l, cnt, key, kind)
+						go httpServer(l, cnt, key, kind, false)
 					}
 				case "silent":
 					defer l.Close()
